@@ -45,6 +45,8 @@ type vEnv struct {
 
 	// C15: sends after a divider fault
 	sendsAfterFault int
+
+	afterSend func() // called at the end of the output observer (lets a harness act "at some later moment")
 }
 
 type vPendingAdd struct {
@@ -211,6 +213,7 @@ func vArbitraryF(n int, unbuffered int, fullMaps bool) *vEnv {
 	}
 	vAssume(d.feedbackLimit >= 1)
 	e.d = d
+	vKnownFields(d, "opts breaker graceful inputs priorities inputAdds inputRmvs actual strategic tactic uncrowded useful feedbackLimit interrupter err")
 	e.G = make([]uint, n)
 	present := 1
 	if !e.fullMaps {
@@ -265,6 +268,9 @@ func (e *vEnv) monitors() {
 			e.G[e.pendingIdx]++
 		}
 		e.pending = false
+		if e.afterSend != nil {
+			e.afterSend()
+		}
 	})
 	for i := range e.ins {
 		i := i
